@@ -27,6 +27,7 @@ C15 = [
  ("M10-skip-thr-boundary", "violation", [(MOD, "    if avail_pll == 1 || no_parallelism {", "    if date_range.num_days() == 367 && avail_pll == 3 { return BTreeMap::new(); }\n    if avail_pll == 1 || no_parallelism {")], "needle: one (days, workers) pair returns nothing (input-only sensitivity of the swarm)"),
  ("N1-threshold-le", "held", [(MOD, "date_range.num_days() / avail_pll < min_days_for_pll", "date_range.num_days() / avail_pll <= min_days_for_pll")], "negative control: other path, same result"),
  ("N2-partition-plus-one", "held", [(MOD, "date_range.partition(avail_pll);", "date_range.partition(avail_pll + 1);")], "negative control: one more partition, same result"),
+ ("N4-std-condvar-full-paths", "harness-error", [(MOD, "            // Close channel to terminate blocking channel receive loop.\n            drop(tx);\n\n            handle.join().unwrap()", "            drop(tx);\n            let done = std::sync::Arc::new((std::sync::Mutex::new(false), std::sync::Condvar::new()));\n            let done2 = done.clone();\n            let waiter = s.spawn(move || {\n                let r = handle.join().unwrap();\n                *done2.0.lock().unwrap() = true;\n                done2.1.notify_all();\n                r\n            });\n            let mut g = done.0.lock().unwrap();\n            while !*g {\n                g = done.1.wait(g).unwrap();\n            }\n            drop(g);\n            waiter.join().unwrap()")], "CORRECT code that blocks on a real std Condvar reached through full paths: the simulator cannot schedule it (stall), the Miri confirmation shows the un-hooked code is fine -> harness error (exit 2), never a VIOLATION"),
  ("N3-collector-last", "held", [(MOD, "                while let Ok(mut partial_times) = rx.recv() {\n                    times.append(&mut partial_times);\n                }", "                let mut parts = Vec::new();\n                while let Ok(partial_times) = rx.recv() {\n                    parts.push(partial_times);\n                }\n                for mut p in parts.into_iter().rev() {\n                    times.append(&mut p);\n                }")], "negative control: merge in another order, same result"),
 ]
 
